@@ -21,6 +21,17 @@ CHECKS = {
         technique="TLA+ model + TLC exhaustive exploration; spec-to-code replay of every behaviour; TLC trace validation of every execution",
         design_ref="4 C17",
         note=TRUST),
+    "C18": dict(
+        category="model_checking",
+        text="TLC enumerates every number of caches (1..4), every hit/miss assignment and every FallbackClient operation on the "
+             "as-coded model (spec/Fallback.tla), checks it against the contract monitor (spec/FallbackRule.tla: order of "
+             "consultation, stop at first answer, writes only to the primary with the caller's arguments), exports every "
+             "behaviour, replays each into the real class over scripted caches with argument-spelling and hit-value variants "
+             "(falsy hits, None/empty misses), and validates every recorded execution against the contract in TLC. Exhaustive "
+             "for the stated universe, which is the property's whole quantifier.",
+        technique="TLA+ model + TLC exhaustive exploration; spec-to-code replay; TLC trace validation",
+        design_ref="4 C18",
+        note=TRUST),
 }
 
 NOT_YET = "check not built yet in this round (planned in DESIGN.md section 4); no claim made"
